@@ -828,6 +828,21 @@ fn lattice(tier: Tier) -> Vec<(String, Vec<Transaction>)> {
             ));
         }
     }
+    // a repurchase 29, 30 and 31 days after the sale and a capital return in a later tax year (front-ends that
+    // recompute from a cut-down history show other legs)
+    for gap in [29i64, 30, 31] {
+        let s0 = alpha::date(2024, 2, 1);
+        out.push((
+            format!("multi-window {gap}"),
+            vec![
+                alpha::buy(alpha::date(2023, 1, 10), "A", "100", "10.005", "1"),
+                alpha::sell(s0, "A", "60", "12.345", "0.5"),
+                alpha::buy(s0 + chrono::Duration::days(gap), "A", "40", "11.115", "1"),
+                alpha::capret(alpha::date(2025, 3, 1), "A", "80", "200.005", "0"),
+                alpha::sell(alpha::date(2025, 6, 1), "A", "10", "13.335", "0"),
+            ],
+        ));
+    }
     // several legs, several years, a loss year and a zero result
     out.push((
         "multi".to_string(),
